@@ -116,6 +116,7 @@ int main() {
         if (ty == "D") run_alg<DGraph>(alg, k, workers, t, scale, out);
         else if (ty == "L") run_alg<LGraph>(alg, k, workers, t, 0, out);
         else if (ty == "I") run_alg<IGraph>(alg, k, workers, t, 0, out);
+        else if (ty == "U") run_alg<UGraph>(alg, k, workers, t, 0, out);
         else throw std::runtime_error("bad weight type");
     });
 }
